@@ -661,7 +661,7 @@ class Exec:
         it = self.eval(st.iter, fr)
         inv = self.loop_invariant(st)
         seq = self.as_iterspec(it, st)
-        if seq.concrete is not None and (inv is None or self.scope is not None or seq.force_unroll):
+        if seq.concrete is not None:
             self.note_loop(st, "rule1-unrolled")
             for item in seq.concrete:
                 self.assign(st.target, item, fr)
